@@ -2,5 +2,7 @@ pub mod dbgtree;
 pub mod docgen;
 pub mod explore;
 pub mod grammar;
+pub mod interp;
+pub mod modelmatch;
 pub mod reftok;
 pub mod report;
